@@ -1,4 +1,5 @@
 import Proofs.Lemmas.SemStartPred
+import Proofs.Lemmas.SemSearch
 import Proofs.Lemmas.Iter
 import Proofs.C04
 /-!
@@ -127,6 +128,88 @@ theorem prefilter_transparent_sem {inp : Input} {cs : List Nat} (ht : Utf8Text i
       none_skip := fun p r hp hq hr => fails r (hnone p r hp hq (hr.le hEnv hp).1) }
   exact C04.prefilter_transparent hEnv ha hp
 
+/-! ## The unconditional corollary: the modelled byte scans, the IR semantics
+
+`semEnv inp n sp` (`Proofs/Lemmas/SemSearch.lean`) is the `Api.SearchEnv` whose attempts are the
+attempts of the IR semantics at char boundaries, whose `next_right_pos` is the input's, and whose
+`find_bytes` is `VM.findBytesPred sp` — the model of `memchr`/`memchr2`/`memchr3`/
+`ByteBitmap::find_in`/`memmem` that `BacktrackExecutor::next_match` selects for the start predicate
+`sp`. -/
+
+/-- The start predicate of a well-formed regex only mentions UTF-8 sequence-start bytes, so a byte
+scan can only stop at a char boundary. -/
+theorem start_pred_lead_bytes (re : Regex) (hw : WF re.node) {sp : StartPred} (h : predicateForRe re = .ok sp) :
+    LeadsSP sp := predicateForRe_leads re hw h
+
+/-- `memmem` (`VM.findSeq`) returns the first occurrence of the needle. -/
+theorem findSeq_first (bytes : Array Nat) (needle : List Nat) (hne : needle ≠ []) (fuel i : Nat)
+    (hf : bytes.size - i + 1 ≤ fuel) :
+    match findSeq bytes needle fuel i with
+    | some q => i ≤ q ∧ q < bytes.size ∧ occursAt bytes needle q ∧ ∀ r, i ≤ r → r < q → ¬ occursAt bytes needle r
+    | none => ∀ r, i ≤ r → ¬ occursAt bytes needle r := findSeq_spec bytes needle hne fuel i hf
+
+/-- The byte scan of the computed start predicate is an admissible prefix search for the IR
+semantics (`C09.PrefilterAdmissible`), and the environment is well-behaved (`EnvOK`). -/
+theorem byte_scan_admissible {inp : Input} {cs : List Nat} (ht : Utf8Text inp cs) (re : Regex) (hw : WF re.node)
+    {sp : StartPred} (hsp : predicateForRe re = .ok sp) :
+    EnvOK (semEnv inp re.node sp) ∧ C09.PrefilterAdmissible (semEnv inp re.node sp) :=
+  ⟨semEnv_ok ht re.node (predicateForRe_leads re hw hsp), semEnv_admissible ht re hw hsp⟩
+
+/-- **C04 for the IR semantics, prefix-search branch.** For a well-formed IR and UTF-8 text,
+`next_match_with_prefix_search` with the byte scan of the start predicate that
+`startpredicate.rs` computes returns exactly what it returns with no prefilter
+(`find_bytes = Some`): same match, same captures, same `next_start`, from every start offset. -/
+theorem prefilter_transparent_ir {inp : Input} {cs : List Nat} (ht : Utf8Text inp cs) (re : Regex) (hw : WF re.node)
+    {sp : StartPred} (hsp : predicateForRe re = .ok sp) {p : Nat} (hp : p ≤ inp.len) :
+    nextMatchPrefix (semEnv inp re.node sp) p =
+      nextMatchPrefix { semEnv inp re.node sp with findBytes := some } p := by
+  obtain ⟨hEnv, ha⟩ := byte_scan_admissible ht re hw hsp
+  exact C04.prefilter_transparent hEnv ha hp
+
+/-- **C04 for the IR semantics, `StartAnchored` branch.** For a start-anchored IR,
+`next_match_anchored` (one attempt at the given offset, no scan) returns exactly what the plain
+scan returns. -/
+theorem anchored_transparent_ir {inp : Input} {cs : List Nat} (ht : Utf8Text inp cs) (n : Node)
+    (ha : isStartAnchored n = true) {p : Nat} (hp : p ≤ inp.len) :
+    nextMatchAnchored (semEnv inp n .anchored) p =
+      nextMatchPrefix { semEnv inp n .anchored with findBytes := some } p := by
+  have hEnv : EnvOK (semEnv inp n .anchored) := semEnv_ok ht n trivial
+  have hp' : p ≤ (semEnv inp n .anchored).len := hp
+  rw [show ({ semEnv inp n .anchored with findBytes := some } : SearchEnv) = C09.plainEnv (semEnv inp n .anchored) from rfl,
+    C09.plain_eq_first hEnv hp']
+  -- attempts away from offset 0 fail
+  have hfail : ∀ r, 0 < r → (semEnv inp n .anchored).attempt r = none := by
+    intro r hr
+    simp only [semEnv]
+    split
+    · cases hfm : firstMatch inp n r with
+      | none => rfl
+      | some s =>
+        exfalso
+        have hne : sem inp n true (initSt n r) ≠ [] := by
+          intro hh; simp [firstMatch, hh] at hfm
+        have := anchored_pos n ha _ hne
+        simp [initSt] at this
+        omega
+    · rfl
+  unfold nextMatchAnchored
+  cases hatt : (semEnv inp n .anchored).attempt p with
+  | some ec =>
+    obtain ⟨e, caps⟩ := ec
+    have hf : C09.first (semEnv inp n .anchored) p = some (p, e, caps) :=
+      (C09.first_spec_some hEnv hp' p e caps).2 ⟨C09.Reach.refl _, hatt, fun r hr hlt => by
+        have := (hr.le hEnv hp').1; omega⟩
+    simp only [hf, Option.map_some]
+    rfl
+  | none =>
+    have hf : C09.first (semEnv inp n .anchored) p = none :=
+      (C09.first_spec_none hEnv hp').2 (fun r hr => by
+        by_cases hrp : r = p
+        · rw [hrp]; exact hatt
+        · have := (hr.le hEnv hp').1
+          exact hfail r (by omega))
+    simp only [hf, Option.map_none]
+
 /-! ## Non-vacuity -/
 
 /-- `/[ab]c/`-like IR on `"xbc"`: the predicate is the byte set `{a, b}`; the attempt at offset 1
@@ -148,3 +231,6 @@ end Regress.C04Sem
 #print axioms Regress.C04Sem.predicate_for_re_sound
 #print axioms Regress.C04Sem.prefilter_skips_only_failures
 #print axioms Regress.C04Sem.prefilter_transparent_sem
+#print axioms Regress.C04Sem.byte_scan_admissible
+#print axioms Regress.C04Sem.prefilter_transparent_ir
+#print axioms Regress.C04Sem.anchored_transparent_ir
